@@ -404,7 +404,10 @@ impl EventGen for OtherElement {
         let mut e = self.0.clone();
         if e.is_connector() {
             // (placed by its ends alone; see `Connector::from_element()`)
-            e.remove_attrs(&["x", "y", "xy", "x1", "y1", "xy1", "cx", "cy", "cxy"]);
+            // (... and not moved away from them)
+            e.remove_attrs(&[
+                "x", "y", "xy", "x1", "y1", "xy1", "cx", "cy", "cxy", "dx", "dy", "dxy",
+            ]);
         }
         e.resolve_position(context)?; // transmute assumes some of this (e.g. dxy -> dx/dy) has been done
         e.transmute(context)?;
